@@ -557,3 +557,51 @@ def market_fundamentals_cases():
 
 for _f in ("SequentialRunner._generate_markets[fundamental-parameters]", "SequentialRunner._generate_markets[create]"):
     CHECKS[_f] = (market_fundamentals_cases, check_market_fundamentals)
+
+
+# ----------------------------------------------------------------------------- inheritance at the runner's call sites (C18): a parameter of a group / event is inherited through `extends`
+def check_call_site_inheritance(case):
+    """a parameter that the entry does not state itself comes from the nearest ancestor, for markets, agents and events alike (only count / range / naming keys are not inherited)"""
+    import contextlib, io, random as _r
+    from pams.runners import SequentialRunner
+    kind = case["kind"]
+    cfg = {"simulation": {"markets": ["M"], "agents": ["A"], "sessions": [{"sessionName": 0, "iterationSteps": 2, "withOrderPlacement": True, "withOrderExecution": True, "withPrint": False,
+                                                                              "events": ["E"] if kind == "event" else []}]},
+           "MBase": {"class": "Market", "tickSize": 0.5, "marketPrice": 250.0, "outstandingShares": 777},
+           "M": {"extends": "MBase"},
+           "ABase": {"class": "FCNAgent", "markets": ["M"], "assetVolume": 33, "cashAmount": 4321, "fundamentalWeight": 1.0, "chartWeight": 0.0, "noiseWeight": 1.0,
+                     "noiseScale": 0.001, "timeWindowSize": 10, "orderMargin": 0.0},
+           "A": {"extends": "ABase", "numAgents": 2},
+           "EBase": {"class": "OrderMistakeShock", "target": "M", "triggerTime": 0, "priceChangeRate": -0.05, "orderVolume": 7, "orderTimeLength": 3, "enabled": case.get("enabled", False)},
+           "EMid": {"extends": "EBase"},
+           "E": {"extends": "EMid"}}
+    r = SequentialRunner(settings=cfg, prng=_r.Random(1))
+    with contextlib.redirect_stdout(io.StringIO()):
+        r._setup()
+    s = r.simulator
+    if kind == "market":
+        m = s.markets[0]
+        got = (m.tick_size, m.get_market_price(0) if m.get_time() >= 0 else None, m.outstanding_shares)
+        if m.tick_size != 0.5 or m.outstanding_shares != 777:
+            return f"market M extends MBase (tickSize 0.5, outstandingShares 777) but was set up with tick size {m.tick_size}, outstanding shares {m.outstanding_shares}"
+    elif kind == "agent":
+        for a in s.agents:
+            if a.cash_amount != 4321 or a.asset_volumes != {0: 33}:
+                return f"agent group A extends ABase (cashAmount 4321, assetVolume 33) but agent {a.name} has cash {a.cash_amount}, assets {a.asset_volumes}"
+    else:
+        want = case.get("enabled", False)
+        live = [e for e in s.events if e.is_enabled]
+        if len(live) != (1 if want else 0) or len(s.event_hooks) != (1 if want else 0) or any(e.order_volume != 7 for e in s.events):
+            return (f"event E extends EMid extends EBase (enabled {want}, orderVolume 7) but the run has {len(live)} enabled events, {len(s.event_hooks)} registered hooks, "
+                    f"order volumes {[e.order_volume for e in s.events]}")
+    return None
+
+
+def call_site_cases():
+    yield {"kind": "market"}
+    yield {"kind": "agent"}
+    for en in (False, True):
+        yield {"kind": "event", "enabled": en}
+
+
+CHECKS["census:json_extends-call-sites"] = (call_site_cases, check_call_site_inheritance)
